@@ -15,6 +15,7 @@ GenPeer == c[CHOOSE k \in Conns : TRUE].peer
 \* per X-Forwarded-For value: what the property allows (exp), what the model of the repaired code answers
 \* per route type (m), and what each historical deviation alone would answer (dev)
 Row(x) == [p   |-> x.present,
+           nc  |-> x.nc,
            es  |-> x.es,
            exp |-> Decide(cfg.mode, cfg.list, GenPeer, x),
            m   |-> [rt \in RouteTypes |-> Model({}, cfg, GenPeer, x, rt, FALSE)],
@@ -27,4 +28,10 @@ GenInv == PrintT(ToJson([mode |-> cfg.mode, list |-> cfg.list, cache |-> cfg.cac
 \* evaluated on the generation states as a cross-check of the function Model itself
 GenSound == \A x \in AllXff, rt \in RouteTypes, w \in BOOLEAN :
                Model({}, cfg, GenPeer, x, rt, w) \in Decide(cfg.mode, cfg.list, GenPeer, x)
+
+\* several X-Forwarded-For lines: a listed peer has exactly one allowed outcome whatever the lines say, and the
+\* model of the code (first line) is one of the accepted readings
+Lines_ListedStrict == \A x1 \in AllXff, x2 \in AllXff :
+   /\ GenPeer \in cfg.list => DecideLines(cfg.mode, cfg.list, GenPeer, x1, x2) = Decide(cfg.mode, cfg.list, GenPeer, NoXff)
+   /\ \A rt \in RouteTypes : Model({}, cfg, GenPeer, x1, rt, FALSE) \in DecideLines(cfg.mode, cfg.list, GenPeer, x1, x2)
 =============================================================================
